@@ -181,6 +181,26 @@ func (e *nexpr) eval(state any) (any, bool) {
 func (g *gen) nexprFor(state any, p gpath) *nexpr {
 	r := g.r
 	var e *nexpr
+	if g.safeNew {
+		// only values that contain no container made during the run: literals, objects of the initial
+		// heap (never written), and fresh wrappers around them
+		if len(g.objs) > 0 && r.Chance(1, 2) {
+			e = &nexpr{kind: "lit", lit: g.refTo(g.objs, r.Intn(len(g.objs)))}
+		} else {
+			e = &nexpr{kind: "lit", lit: g.scalarCell()}
+		}
+		for r.Chance(1, 3) {
+			switch r.Intn(3) {
+			case 0:
+				e = &nexpr{kind: "wrap1", sub: e}
+			case 1:
+				e = &nexpr{kind: "wrap2", sub: e}
+			default:
+				e = &nexpr{kind: "obj", key: keys[r.Intn(3)], sub: e}
+			}
+		}
+		return e
+	}
 	switch r.Intn(10) {
 	case 0, 1, 2:
 		e = &nexpr{kind: "lit", lit: g.scalarCell()}
@@ -211,6 +231,27 @@ func (g *gen) nexprFor(state any, p gpath) *nexpr {
 // heapPath: paths for the heap stream; mostly valid, overlapping with earlier ones
 func (g *gen) heapPath(state any, prev []gpath) gpath {
 	r := g.r
+	if g.safeNew && r.Chance(1, 3) {
+		// slice(s) followed by further components
+		var p gpath
+		if r.Chance(1, 2) && within(state, 0, dumpDepth) {
+			p = g.randPath(state, 2)
+			for i := range p {
+				if p[i].kind == 'b' {
+					p[i] = comp{kind: 'i', idx: 0}
+				}
+			}
+		}
+		p = append(p, g.sliceComp(4))
+		if r.Chance(1, 3) {
+			p = append(p, g.sliceComp(3))
+		}
+		p = append(p, comp{kind: 'i', idx: r.Intn(6) - 2})
+		if r.Chance(1, 3) {
+			p = append(p, g.randPath(nil, 1)...)
+		}
+		return p
+	}
 	if len(prev) > 0 && r.Chance(1, 2) {
 		q := prev[r.Intn(len(prev))]
 		switch r.Intn(4) {
@@ -249,6 +290,22 @@ func (g *gen) heapPath(state any, prev []gpath) gpath {
 	return p
 }
 
+// runHeapSafe: the same operations, but every new value is free of containers made during the run (the side
+// condition of C02_abs_update) and paths prefer slices followed by further components: judged against VALUE
+// semantics, a deviation would refute the statement left open for inner slices
+func runHeapSafe(c *Ctx) {
+	g := newGen(c.Rng)
+	g.safeNew = true
+	for i := 0; i < c.N; i++ {
+		line, viol := g.heapCase()
+		if viol != "" {
+			c.Violation("%s", viol)
+		}
+		c.Emit("%s", line)
+		c.Count("heapsafe")
+	}
+}
+
 func runHeap(c *Ctx) {
 	g := newGen(c.Rng)
 	for i := 0; i < c.N; i++ {
@@ -264,11 +321,12 @@ func runHeap(c *Ctx) {
 func (g *gen) heapCase() (line string, viol string) {
 	r := g.r
 	objs, root := g.heapObjs()
+	g.objs = objs
 	var osx []string
 	for _, o := range objs {
 		osx = append(osx, o.sexp())
 	}
-	shared := r.Chance(5, 6)
+	shared := r.Chance(5, 6) || g.safeNew
 	var a *gojq.VerifAlloc
 	if shared {
 		a = gojq.VerifNewAlloc()
